@@ -48,7 +48,7 @@ def byLabel (w : W) : Lbl → List (List WA)
     | none => []
 
 def csys : Conf.CSys W WA Lbl :=
-  { act := wact, taus := fun _ => [.m .pUnlock], byLabel := byLabel }
+  { act := wact, taus := fun _ => [.m .pUnlock, .m .pAbort], byLabel := byLabel }
 
 def parseUs (s : String) : Option (List Nat) :=
   if s = "" then some [] else (s.splitOn "+").mapM String.toNat?
